@@ -9,6 +9,11 @@ def obligations(tier):
     for fl in (('mb', 'qsbr') if q else ('mb', 'memb', 'qsbr')):
         obs += gp('%s_1r' % fl, fl, ['updater', 'reader'], 2 if (q and fl == 'mb') else 3, faults=1, live=True, safe=False,
                   desc='%s: synchronize_rcu completes once the reader has left; futex waits may return spuriously / EINTR once; deadlock detector after every round' % fl)
+    if not q:
+        obs += gp('mb_2callers', 'mb', ['updater', 'updater2'], 3, faults=1, live=True, safe=False, timeout=4500, mem_gb=20,
+                  desc='mb: two concurrent synchronize_rcu callers, no reader: the second may queue behind the first as a follower and sleep on its wait '
+                       'node (URCU_WAIT_ATTEMPTS=1); its FUTEX_WAIT may return spuriously / EINTR once; both return',
+                  wit=['second synchronize_rcu caller returned'])
     return obs
 
 
